@@ -405,5 +405,6 @@ def r05d(ctx):
         ctx.check(in_iteration_guarded(a, lp, b, eq), 'R05d', fn, 'idx guard', '%s:%d' % (a.body['file'], ln), 'bytes are added only on the edge where the looked-up index == base_idx + i',
                   'the local matcher extends a run with a chunk that is not stored at the next position')
         ie = [z for z in flow.subtrees(e) if z[0] == 'index']
-        ctx.check(bool(ie) and a.rooted_at(ie[0][2], g), 'R05d', fn, 'bytes.of', '%s:%d' % (a.body['file'], ln), 'the bytes added are new_data[idx].data.len() for the looked-up idx')
+        ctx.check(bool(ie) and a.rooted_at(ie[0][2], g), 'R05d', fn, 'bytes.of', '%s:%d' % (a.body['file'], ln), 'the bytes added are new_data[idx].data.len() for the looked-up idx',
+                  'the bytes added for a matched chunk are not the length of the chunk at the looked-up position (indexed by %s): the reported byte count of the run is wrong' % (flow.show(ie[0][2])[:40] if ie else '?'))
     ctx.check(latches_guarded(a, lp, eq), 'R05d', fn, 'continue guard', a.loc(lp[0]), 'the loop continues only after such a match')
